@@ -208,6 +208,16 @@ def run(ctx):
         table(ctx, R, 'SolarDay::get_phenology_day' + era, days, pheno, pheno_orc, u'七十二候: three per term (days 0-4, 5-9, 10+); term day index counts from the term day',
               lambda n: '%d-%02d-%02d' % CAL.from_jdn(n), fn_site(p, 'SolarDay::get_phenology_day'))
 
+        # the day a term starts on, as a caller obtains it (term -> Julian date -> civil day), is day 0 of the term's first pentad
+        def own_day(ti):
+            cm = CalModel(I, tm0, months)
+            d = t.m(t.m(cm.term_sv(Y, ti), 'get_julian_day'), 'get_solar_day')
+            r = t.m(d, 'get_phenology_day')
+            return (cm.n_of(d), t.name(t.m(r, 'get_phenology')), py(t.m(r, 'get_day_index')))
+        table(ctx, R, 'SolarTerm:own-day:pentad' + era, range(24), own_day,
+              lambda ti: (tm0[(Y, ti)][0] + (1 if tm0[(Y, ti)][1] >= 86399.5 else 0), ph_names[ti * 3], 0),
+              u'the civil day of a term (its instant rounded to the second) is day 0 of the first pentad of that term', lambda ti: TERMS[ti], fn_site(p, 'JulianDay::get_solar_day'))
+
         # ---------------- commanding stems: 12 months x day index 0..32 from the Jie day
         jie_branch = dict((i, G.BRANCHES[(2 + (i - 3) // 2) % 12]) for i in range(1, 24, 2))   # 立春(3)->寅 ... 小寒(1)->丑
         domc = []
